@@ -47,7 +47,11 @@ PROP = {
             "and a publisher wrapper (passed to AddHandler or installed with AddPublisherDecorators), optional foreign subscriber (tap) on the source "
             "topic, seeded yield injection at all router.* / gochannel.* hook points and in the wrappers. Stages may emit 2..3 outputs per input (derived lineages l*w+j, the sink must see "
             "every derived lineage); px faults refuse the Publish call that contains output #j of the k-th invocation of a stage. "
-            "Every handler edits the copy it received in place (payload field replaced, hop counter incremented, mark set) "
+            "Topic names are arbitrary strings derived from the case seed. A fifth of the cases publish the source messages as struct literals "
+            "(&message.Message{UUID, Payload}: nil Metadata, lineage in the UUID only). Every stage honours the context of the message it is handed "
+            "(a delivery whose context is already cancelled fails with ctx.Err()) and writes the metadata of its copy; failures that no scripted fault "
+            "explains (uf events) go to the Router like any other, are paused 1..50 ms, and more than 20 of them for one (stage, lineage) end the case as "
+            "a livelock. Every handler edits the copy it received in place (payload field replaced, hop counter incremented, mark set) "
             "and every delivery is compared with the message as published. Quick: every placement of <= 2 faults "
             "(7 kinds x stage x call 1..3) on chains of <= 2 stages with <= 2 messages (2272 cases) + every placement of <= 2 faults among "
             "{px x invocation 1..2 x position, 5 kinds x stage x call 1} on the multi-output chains 1x2, 1x3, 1x2/2, 1/2x2 (650 cases) "
@@ -59,7 +63,8 @@ PROP = {
             "of the Lean model Pipeline.act ending in a terminal state (M line) and must satisfy the C01 monitor (P line): Ack only after the "
             "real Publish returned nil for EVERY output of that invocation, sink lineages derive from a published source lineage, every derived "
             "lineage of every successfully published source lineage is at the sink at quiescence (liveness bound 30 s), every Nacked copy was followed by a later delivery, and every delivered copy is the message as published "
-            "(no trace of the in-place edits of a failed attempt). Non-trivial = a case with an "
+            "(no trace of the in-place edits of a failed attempt), and no delivery keeps failing once the scripted faults are used up "
+            "(rule delivered(livelock:...)). Non-trivial = a case with an "
             "injected fault and a redelivery.",
     "trusted_base": [
         "Lean 4.33.0 kernel; axioms per theorem under theorem_axioms",
@@ -77,6 +82,9 @@ PROP = {
         "Go race detector; liveness bound 30 s for quiescence",
     ],
     "assumptions": [
+        "livelock shortcut: a case in which the deliveries of one copy have failed more than 20 times in a row without any scripted fault is ended "
+        "as stuck without waiting for the 30 s liveness bound (on the unchanged tree not a single unscripted failure occurs, so the shortcut can "
+        "only shorten runs that are failing anyway)",
         "stop-sibling class (ps): a Handler.Stop of a sibling branch is not one of the fault kinds the statement lists; it is read as a fault of "
         "that branch's chain only, and the at-least-once clause is demanded of every chain of the DAG whose handlers keep running (per-branch "
         "arrival at the final topic). These traces are judged by the monitor alone - the Lean model has no Stop step. The harness's publisher "
